@@ -45,6 +45,11 @@ class _Sock:
     def sendall(self, b):
         self.we.writes.append(('sock', b))
 
+    def send(self, b):
+        # a single send() may take only part of the data (here: one element)
+        self.we.writes.append(('sock', b[:1]))
+        return 1 if len(b) else 0
+
 
 class _Stdin:
     def __init__(self, we):
@@ -131,7 +136,7 @@ def _run(tr, uni, astext, a, b, op0, op1, ret):
         if len(toks) != len(enc.calls):
             return 0
         for k, t in enumerate(toks):
-            if not isinstance(t, EncTok) or t.s is not enc.calls[k][0]:
+            if not isinstance(t, EncTok) or t.part or t.s is not enc.calls[k][0]:
                 return 0
         got = _cat(texts, lit(''))
         want = _cat(expected, lit(''))
